@@ -16,7 +16,7 @@ def cases(draw, tier):
     nmax = 5 if tier == 'thorough' else 4
     nl = draw(gen.netlists(min_inputs=0, max_inputs=nmax, max_gates=16 if tier == 'thorough' else 12,
                            max_arity=4, styles=('plain', 'digits', 'mixed'), max_outputs=3, const_operands=(0, 0, 2)))
-    return {'nl': nl, 'route': draw(gen.routes(nl)), 'explicit_undefined': draw(st.booleans()),
+    return {'nl': nl, 'route': draw(gen.routes(nl)), 'explicit_undefined': draw(st.booleans()), 'ints': draw(st.integers(0, 4)) == 0,
             # how the assignment reaches the call: as built, or after copy.deepcopy / a pickle round trip (the Undefined
             # marker then is another object of the same kind)
             'transport': draw(st.sampled_from(['none', 'none', 'deepcopy', 'pickle'])),
@@ -57,6 +57,12 @@ def check_partial(case):
     n_defined_with_undef_dep = 0
 
     tr = case.get('transport', 'none')
+    # defined values spelled 0 / 1 (as the repository's own tests spell them): whatever comes back as a plain int is read as
+    # the truth value it equals
+    ints = bool(case.get('ints'))
+
+    def norm(d):
+        return {k: (bool(v) if type(v) is int else v) for k, v in d.items()} if ints else d
 
     def sent(assign):
         if tr == 'deepcopy':
@@ -91,12 +97,12 @@ def check_partial(case):
                 if case['explicit_undefined']:
                     assign[nl['inputs'][i]] = U
             else:
-                assign[nl['inputs'][i]] = v
+                assign[nl['inputs'][i]] = (1 if v else 0) if ints else v
                 cube &= pats[i] if v else (pats[i] ^ mask)
         total = None not in p
-        lazy = c.evaluate_circuit(sent(assign))
-        full = c.evaluate_full_circuit(sent(assign))
-        outs = c.evaluate_circuit_outputs(sent(assign))
+        lazy = norm(c.evaluate_circuit(sent(assign)))
+        full = norm(c.evaluate_full_circuit(sent(assign)))
+        outs = norm(c.evaluate_circuit_outputs(sent(assign)))
         for name, res in (('evaluate_circuit', lazy), ('evaluate_full_circuit', full)):
             for lab in labs:
                 if lab not in res:
@@ -122,7 +128,7 @@ def check_partial(case):
             # an explicit selection of gates to evaluate (list or tuple; any gates, also repeated): the same verdicts for
             # everything the selection reaches
             chosen = [labs[k % len(labs)] for k in sel]
-            part = c.evaluate_circuit(sent(assign), outputs=chosen if len(sel) % 2 else tuple(chosen))
+            part = norm(c.evaluate_circuit(sent(assign), outputs=chosen if len(sel) % 2 else tuple(chosen)))
             cone = refsem.reachable(nl, chosen)
             for lab in cone:
                 v = part.get(lab, U)
@@ -174,6 +180,8 @@ def check_partial(case):
         cls.add('after_fix_inputs')
     if tr != 'none' and case['explicit_undefined']:
         cls.add('undefined_marker_copied')
+    if ints:
+        cls.add('values_as_0_1')
     return {'nt': nt, 'cls': cls, 'count': {'partial_assignments': 3 ** n},
             'sample': {'bench': build.bench_text(nl), 'explicit_undefined': case['explicit_undefined']}}
 
@@ -326,10 +334,10 @@ SPEC = {
              'sequence of evaluations through the three entry points while defining / changing / undefining inputs in place; every '
              'answer must be sound for the inputs fixed at that moment. Non-trivial: some gate is defined while an input it structurally '
              'depends on is undefined.'
-             ' Added during the build: zero-input circuits, circuits looked at and then partly fixed (replace_inputs) before evaluation, evaluation of what into_bench leaves behind, explicit outputs= selections as lists and tuples, transported Undefined marks, n-ary operators over 5-70 (257) operands on structured tuples.'),
+             ' Added during the build: zero-input circuits, circuits looked at and then partly fixed (replace_inputs) before evaluation, evaluation of what into_bench leaves behind, explicit outputs= selections as lists and tuples, transported Undefined marks, defined values spelled 0 / 1, n-ary operators over 5-70 (257) operands on structured tuples.'),
     'assumptions': ['reference full tables from vlib/refsem.py'],
     'subs': [Sub('partial', cases, check_partial, {'quick': 1500, 'thorough': 75000}),
              Sub('dict_reuse', reuse_cases, check_reuse, {'quick': 1500, 'thorough': 50000})],
     'exhaustive': {'operator_tables': operator_tables},
-    'required_classes': {'partial': ['nary>=3', 'LR_gate', 'cmp_gate', 'constant', 'dup_operand', 'dead_gate', 'zero_inputs', 'after_into_bench', 'after_fix_inputs']},
+    'required_classes': {'partial': ['nary>=3', 'LR_gate', 'cmp_gate', 'constant', 'dup_operand', 'dead_gate', 'zero_inputs', 'after_into_bench', 'after_fix_inputs', 'values_as_0_1']},
 }
